@@ -29,11 +29,12 @@ TouchstoneKinds == {"s1p", "s2p", "s3p", "s4p", "ts"}
 
 Mutations == {"none", "tokDel", "tokDup", "tokSwap", "numPerturb", "kwReorder",
               "lineDel", "lineDup", "truncate", "yamlKind", "randBytes",
-              "insert", "splice", "kwRepeat"}
+              "insert", "splice", "kwRepeat", "yamlAlias"}
 
-(* yamlKind (node kind substitution) needs a YAML document *)
+(* yamlKind (node kind substitution) and yamlAlias (anchors / aliases:    *)
+(* cycles, shared subtrees, deep nesting) need a YAML document             *)
 Applicable(kind, mut) ==
-    mut = "yamlKind" => kind \in {"vnacal", "yamlfile", "yamlstring"}
+    mut \in {"yamlKind", "yamlAlias"} => kind \in {"vnacal", "yamlfile", "yamlstring"}
 
 -----------------------------------------------------------------------------
 (* (1) the outcome contract                                                *)
@@ -58,9 +59,15 @@ FailOK(ev) ==
 (* what is left after a failure: vnacal_load returns no object; the        *)
 (* vnadata_t / property root handed in can still be queried, re-used and   *)
 (* freed                                                                   *)
+(* A failed YAML import must not leave a half-built tree: the manual says  *)
+(* the import replaces the existing content, the property that a failing   *)
+(* parser leaves no partial object behind -- so after a failure the        *)
+(* destination is what it was before the call, or empty.                   *)
 AfterFailOK(ev) ==
-    IF ev.kind = "vnacal" THEN ev.obj = 0
-    ELSE ev.usable = 1
+    CASE ev.kind = "vnacal" -> ev.obj = 0
+      [] ev.kind \in {"yamlfile", "yamlstring"} ->
+            ev.usable = 1 /\ ev.dest \in {"unchanged", "empty"}
+      [] OTHER -> ev.usable = 1
 
 (* dimensions fit the parameter type (vnadata(3)): S, Z, Y square; T, U,   *)
 (* H, G, A, B two-by-two; Zin a row vector; undefined anything             *)
